@@ -31,7 +31,9 @@ def conv(t):
     if n == "lit":
         if t["k"] == "prim":
             return ["prim", chars(t["sp"])]
-        return [t["k"], chars(t["tv"])]
+        sp = chars(t["sp"])
+        qc = '"' if t["k"] == "str" else "'"
+        return [t["k"], chars(t["tv"]), sp[:sp.index(qc)], sp[sp.rindex(qc) + 1:]]
     if n in ("un", "post"):
         return [n, chars(t["op"]), conv(t["x"])]
     if n == "bin":
@@ -45,10 +47,23 @@ def conv(t):
     if n == "index":
         return ["index", conv(t["a"]), conv(t["i"])]
     if n == "cast":
-        return ["cast", chars(t["ty"]), conv(t["x"])]
+        return ["cast", normtype(chars(t["ty"])), conv(t["x"])]
     if n == "sizeof":
         return ["sizeof", conv(t["x"])]
     raise Broken("unknown spec node %r" % n)
+
+
+def normtype(sp):
+    """normalised spelling of a type: the multiset of its words with the implied ones removed
+    (long == long int, unsigned short == unsigned short int), pointer stars kept at the end"""
+    words = sp.replace("*", " * ").split()
+    stars = words.count("*")
+    words = [w for w in words if w != "*"]
+    if any(w in ("long", "short", "unsigned", "signed") for w in words) and "char" not in words:
+        words = [w for w in words if w != "int"]
+    if "char" not in words:
+        words = [w for w in words if w != "signed"]
+    return " ".join(sorted(words) + ["*"] * stars)
 
 
 def norm(t):
@@ -56,6 +71,8 @@ def norm(t):
     if isinstance(t, list):
         if not t or isinstance(t[0], list):
             return ["list"] + [norm(x) for x in t]
+        if t and t[0] in ("cast", "fcast", "scast", "var") and len(t) > 2 and isinstance(t[1], str):
+            return [t[0], normtype(t[1])] + [norm(x) for x in t[2:]]
         return [t[0]] + [norm(x) for x in t[1:]]
     return t
 
@@ -70,6 +87,8 @@ def label(t):
     k = t[0]
     if k in ("un", "post", "bin"):
         return "%s(%s)" % (k, t[1])
+    if k in ("cast", "var") and len(t) > 1 and isinstance(t[1], str):
+        return "%s(%s)" % (k, t[1].replace(" ", "_"))
     if k in ("str", "char"):
         q = '"' if k == "str" else "'"
         v = t[1] if len(t) > 1 else ""
@@ -130,7 +149,7 @@ def conv_s(x):
             t = ty
             while name.startswith("*"):
                 t, name = t + " *", name[1:]
-            out.append(["var", t, name, conv_e(v["init"])])
+            out.append(["var", normtype(t), name, conv_e(v["init"])])
         return out
     if k == "if":
         elifs = ["list"] + [["elif", ["expr", conv(e["c"])], L(e["body"])] for e in x["elifs"]]
@@ -253,6 +272,7 @@ def statements(ctx, exe, env, jvm, workers, thorough):
         ctx.mismatch("crash:stmt:%s:%s:%s" % (c["crash"], kind, fn), "%s while processing %r" % (c["crash"], cases[c["beh"]]["text"]), [cases[c["beh"]]])
     compared = reparsed = rejected = 0
     printed = {}
+    printed_nospec = {}
     for i, it in enumerate(items):
         o = outs.get(i)
         if o is None:
@@ -283,6 +303,8 @@ def statements(ctx, exe, env, jvm, workers, thorough):
                          "%r is printed as %r and parsed back as %s instead of %s" % (it["body"], o.get("p1"), json.dumps(t2), json.dumps(t1)), rep)
         if it["sig"] in ("go", "return"):
             printed[i] = o["p1"]
+        else:
+            printed_nospec[i] = o["p1"]
     if rejected > 0.5 * len(items):
         raise Broken("OCCA rejected %d of %d generated programs" % (rejected, len(items)))
     # values: g++ on the original (cross-check of the spec) and on the printed program
@@ -308,7 +330,22 @@ def statements(ctx, exe, env, jvm, workers, thorough):
             ctx.mismatch("stmt-value-changed:%s" % top, "%r gives (a, b) = %s but its printed form %r gives %s" % (items[i]["body"], items[i]["env"], text, pv.get(i)), rep)
         else:
             checked += 1
-    return {"programs_generated": len(items), "programs_compared_with_spec": compared, "programs_reparsed": reparsed,
+    # programs without a spec value (64-bit arithmetic, pointers): CROSS-CHECK original versus printed through g++ only
+    on, onbad = gxx_programs(ctx, [(i, cases[i]["text"]) for i in sorted(printed_nospec)], "orig_nospec")
+    pn, pnbad = gxx_programs(ctx, [(i, t) for i, t in sorted(printed_nospec.items()) if i in on], "printed_nospec")
+    differential = 0
+    for i, text in sorted(printed_nospec.items()):
+        if i not in on:
+            continue
+        rep = [{"mode": "stmt", "text": cases[i]["text"], "printed": text, "gxx_original": on[i]}]
+        top = label(items[i]["spec"][1]) if len(items[i]["spec"]) > 1 else "empty"
+        if i in pnbad:
+            ctx.mismatch("stmt-printed-does-not-compile:%s" % top, "%r printed as %r: %s" % (items[i]["body"], text, pnbad[i]), rep)
+        elif pn.get(i) != on[i]:
+            ctx.mismatch("stmt-value-changed-gxx:%s" % top, "g++ runs %r to (a, b) = %s but its printed form %r to %s" % (items[i]["body"], on[i], text, pn.get(i)), rep)
+        else:
+            differential += 1
+    return {"programs_gxx_original_vs_printed_compared": differential, "programs_generated": len(items), "programs_compared_with_spec": compared, "programs_reparsed": reparsed,
             "programs_rejected_by_occa": rejected, "program_values_checked_with_gxx": checked,
             "program_spec_values_crosschecked": len(val_ids)}, compared, \
            [{"text": items[i]["body"], "style": items[i]["style"], "final_a_b": items[i]["env"]} for i in (0, len(items) // 2, len(items) - 1)]
@@ -330,21 +367,26 @@ def unwrap(tree):
     return None
 
 
-def gxx_values(ctx, exprs, tag):
-    """exprs: list of (id, text).  Returns ({id: [r,a,b,c,d]}, {id: error line})."""
+def gxx_values(ctx, exprs, tag, wide=False):
+    """exprs: list of (id, text).  Returns ({id: [r,a,b,c,d]}, {id: error line}).
+    wide=False: the result is taken as int (the spec's semantics); wide=True: as long long, so that 64-bit
+    results are visible (used for the original-versus-printed comparison)."""
     if not exprs:
         return {}, {}
     src = os.path.join(ctx.tmp, "vals_%s.cpp" % tag)
     exe = os.path.join(ctx.tmp, "vals_%s" % tag)
-    head = ["#include <cstdio>", "static int f(int x, int y) { return 10 * x + y; }", "int main() {"]
+    # a division by zero in an expression without a spec value must not kill the whole program: SIGFPE -> "<id> FPE"
+    head = ["#include <cstdio>", "#include <csignal>", "#include <csetjmp>", "static sigjmp_buf jb;",
+            "static void fpe(int) { siglongjmp(jb, 1); }", "static int f(int x, int y) { return 10 * x + y; }",
+            "int main() { signal(SIGFPE, fpe);"]
     remaining = list(exprs)
     bad = {}
     for attempt in range(40):
         with open(src, "w") as fsrc:
             fsrc.write("\n".join(head) + "\n")
             for (i, text) in remaining:
-                fsrc.write("{ int a = 5, b = 3, c = 2, d = 7; long long r = (long long) (int) (%s); "
-                           "printf(\"%d %%lld %%d %%d %%d %%d\\n\", r, a, b, c, d); }\n" % (text.replace("\n", " "), i))
+                fsrc.write("if (sigsetjmp(jb, 1) == 0) { int a = 5, b = 3, c = 2, d = 7; long long r = (long long) " + ("" if wide else "(int) ") + "(%s); "
+                           "printf(\"%d %%lld %%d %%d %%d %%d\\n\", r, a, b, c, d); } else printf(\"%d FPE\\n\");\n" % (text.replace("\n", " "), i, i))
             fsrc.write("return 0; }\n")
         rc, out = vlib.sh(["g++", "-std=c++17", "-w", "-O0", "-fwrapv", "-o", exe, src], timeout=900)
         if rc == 0:
@@ -364,7 +406,7 @@ def gxx_values(ctx, exprs, tag):
     vals = {}
     for ln in out.splitlines():
         p = ln.split()
-        vals[int(p[0])] = [int(x) for x in p[1:]]
+        vals[int(p[0])] = "FPE" if p[1:] == ["FPE"] else [int(x) for x in p[1:]]
     return vals, bad
 
 
@@ -409,7 +451,7 @@ def run(ctx):
     UNDEF = -999999
     items = []
     for b in gen:
-        items.append({"spec": conv(b["tree"]), "text": chars(b["text"]), "v": b["v"], "env": b["env"]})
+        items.append({"spec": conv(b["tree"]), "text": chars(b["text"]), "v": b["v"], "env": b["env"], "wt": b["wt"]})
     items.sort(key=lambda x: x["text"])
 
     # 3. replay: every text through expressionParser (unless it needs type information) and through parser_t
@@ -431,6 +473,7 @@ def run(ctx):
 
     rejected, compared, reparsed = {}, 0, 0
     printed_for_value = {}
+    printed_all = {}
     for i, (k, mode) in enumerate(meta):
         it = items[k]
         o = outs.get(i)
@@ -467,6 +510,13 @@ def run(ctx):
             ctx.mismatch("reparse-differs:%s:%s->%s" % d2,
                          "%r is printed as %r and parsed back as %s instead of %s (%s mode)" % (it["text"], o.get("p1"), json.dumps(t2), json.dumps(t1), mode), rep)
         # (3) value of the printed text
+        if it["wt"] or it["v"] != UNDEF:
+            pw = o["p1"]
+            if mode == "stmt":
+                mw = re.search(r"\{\s*(.*);\s*\}\s*$", pw, re.S)
+                pw = mw.group(1) if mw else None
+            if pw is not None:
+                printed_all[(k, mode)] = pw
         if it["v"] != UNDEF:
             p1 = o["p1"]
             if mode == "stmt":
@@ -504,6 +554,28 @@ def run(ctx):
 
     st_cov, st_compared, st_samples = statements(ctx, exe, env, jvm, workers, thorough)
 
+    # (3b) CROSS-CHECK WITHOUT THE SPEC: original text versus printed text through g++, results as long long, for every
+    # expression g++ accepts -- this sees widths the small-int semantics of Eval cannot (64-bit casts, big literals)
+    wide_ids = [k for k, it in enumerate(items) if it["wt"]]
+    ow, owbad = gxx_values(ctx, [(k, items[k]["text"]) for k in wide_ids], "origw", wide=True)
+    if owbad:
+        raise Broken("the specification calls %d texts well-typed that g++ rejects, e.g. %r: %s"
+                     % (len(owbad), items[next(iter(owbad))]["text"], next(iter(owbad.values()))))
+    pwl = sorted(printed_all.items())
+    pw, pwbad = gxx_values(ctx, [(n, text) for n, (_, text) in enumerate(pwl)], "printedw", wide=True)
+    differential = 0
+    for n, ((k, mode), text) in enumerate(pwl):
+        if k not in ow:
+            continue
+        rep = [{"mode": mode, "text": items[k]["text"], "printed": text, "gxx_original": ow[k]}]
+        if n in pwbad:
+            ctx.mismatch("printed-does-not-compile:%s" % label(items[k]["spec"]), "%r printed as %r: %s" % (items[k]["text"], text, pwbad[n]), rep)
+        elif pw.get(n) != ow[k]:
+            ctx.mismatch("value-changed-gxx:%s" % label(items[k]["spec"]),
+                         "g++ evaluates %r to %s but its printed form %r to %s (result as long long, a, b, c, d)" % (items[k]["text"], ow[k], text, pw.get(n)), rep)
+        else:
+            differential += 1
+
     nrej = sum(rejected.values())
     if nrej > 0.6 * len(cases):
         raise Broken("OCCA rejected %d of %d generated texts: the comparison would be vacuous" % (nrej, len(cases)))
@@ -512,7 +584,7 @@ def run(ctx):
                    (0, len(items) // 4, len(items) // 2, 3 * len(items) // 4, len(items) - 1)] + st_samples
     ctx.cov.update(st_cov)
     ctx.cov.update({"expressions_generated": len(items), "texts_executed": len(outs), "trees_compared_with_spec": compared,
-                    "reparsed_and_compared": reparsed, "values_checked_with_gxx": values_checked,
+                    "reparsed_and_compared": reparsed, "values_checked_with_gxx": values_checked, "gxx_original_vs_printed_compared": differential,
                     "spec_values_crosschecked_with_gxx": len(val_ids), "rejected_by_occa": nrej,
                     "rejected_by_root_kind": rejected, "crashes": len(crashes)})
     ctx.assumptions += [
@@ -524,6 +596,9 @@ def run(ctx):
         "statements/declarations: if/else-if/else incl. every dangling-else association, while, do, for (declaration, expression and empty "
         "headers), switch with fall-through, blocks, break/continue/return, declarations with initialisers (casts, char and string "
         "literals with escapes), in two source styles (all bodies braced / minimal braces); bodies of void k(int &a, int &b)",
+        "widths: narrowing casts/declarations (unsigned char, signed char, short) are in the spec's semantics; results beyond 32 bits are "
+        "not (TLC integers): for those only g++(original) = g++(printed) is compared, as long long, without a spec value",
+        "types are compared by a normalised spelling (multiset of words, implied int/signed removed): long == long int",
         "g++ is the reference for C++ values; the spec's values are cross-checked against it on the original texts in every run",
     ]
     return ctx.finish(exhaustive=False)
